@@ -114,9 +114,14 @@ def execute_guarded(mod, scn, L):
             # hierarchy tables for the two properties that are defined by
             # them (C09 writer order, C10 reader order); elsewhere the state
             # is restored and only counted
-            if mod.ID == 'C18' or (mod.ID in ('C09', 'C10') and tables):
+            dom = [c for c in changed if c.startswith('pydiffx.dom.')]
+
+            if (mod.ID == 'C18' and (dom or tables)) or \
+               (mod.ID in ('C09', 'C10') and tables):
                 out.violate('%s.process-global-state-mutated' % mod.ID,
-                            (tables or changed)[0], {'changed': changed})
+                            (tables or dom)[0].rsplit('.', 2)[-1]
+                            if not tables else tables[0],
+                            {'changed': sorted(set(changed))})
 
         return out, None
     except SimHang:
